@@ -94,7 +94,7 @@ def check_exec(ctx, name, scn, res, prefix, cost):
     end = res["end"]
 
     def viol(kind, extra=None, generic=False):
-        d = {"scenario": name, "script": scn["script"], "prefix": prefix, "deviations": cost, "end": end, "responses": res["responses"],
+        d = {"scenario": name, "script": scn["script"], "prefix": prefix, "deviations": cost, "end": end, "responses": res["responses"], "horizon": 100 if scn["endless"] else 300,
              "schedule": [f"{t}:{l}{'(timer)' if to else ''}" for (i, t, l, to) in schedx.executed_ops(res)][:400]}
         if extra:
             d.update(extra)
@@ -177,7 +177,7 @@ def model_conformance(ctx, projected, horizon):
         cx = e4.counterexample(workdir, sc)
         if cx:
             scn = SCENARIOS[name]
-            res = e4.directed_replay(ctx.binary, scn["script"], cx, horizon)
+            res = e4.directed_replay(ctx.binary, scn["script"], cx, horizon if scn["endless"] else 300)
             if res is None:
                 # the model lets a finite eval finish after any number of steps; a counterexample that needs a step count the
                 # concrete program of the scenario does not have is not realisable and says nothing about the code
@@ -198,9 +198,11 @@ def model_conformance(ctx, projected, horizon):
 def run(ctx):
     bound = 2 if ctx.quick else 3
     budget = float(os.environ.get("GV_SCHED_BUDGET", 90 if ctx.quick else 1500))
-    horizon = 100
+    horizon = 100      # scenarios with an endless eval run to the horizon in every execution
+    FINITE_HORIZON = 300   # scenarios whose evals all finish: only a stuck execution gets anywhere near it
+    hz = lambda n: horizon if SCENARIOS[n]["endless"] else FINITE_HORIZON
     ctx.bound("deviation_bound_requested", bound)
-    ctx.bound("step_horizon", horizon)
+    ctx.bound("step_horizon", {"scenarios with an endless eval": horizon, "other scenarios": 300})
     only = os.environ.get("GV_C31_ONLY")
     names = [n for n in SCENARIOS if not only or n in only.split(",")]
     # the interrupt-behind-eval scenario first: it is where the dequeue/reset window is reachable with two deviations
@@ -221,7 +223,7 @@ def run(ctx):
             if name in E4_SCRIPTS:
                 projected.setdefault(name, set()).add(tuple(e4.project(res)))
             check_exec(ctx, name, scn, res, prefix, cost)
-        ex = schedx.Explorer(ctx.binary, scn["script"], horizon, bnd, chk, deadline=deadline)
+        ex = schedx.Explorer(ctx.binary, scn["script"], hz(name), bnd, chk, deadline=deadline)
         ex.explore()
         return ex
 
@@ -229,7 +231,7 @@ def run(ctx):
     first = {}
     for name in names:
         scn = SCENARIOS[name]
-        base = schedx.run_exec(ctx.binary, scn["script"], [], horizon)
+        base = schedx.run_exec(ctx.binary, scn["script"], [], hz(name))
         if not base["trace"]:
             raise Machinery(f"{name}: empty trace: {base['end']} {base.get('stderr', '')[:300]}")
         bases[name] = base
@@ -244,7 +246,7 @@ def run(ctx):
             if tix:
                 probes.append(ch[:i] + [tix[0]])
                 break
-        schedx.Explorer(ctx.binary, scn["script"], horizon, 0, lambda *a: None).determinism(probes)
+        schedx.Explorer(ctx.binary, scn["script"], hz(name), 0, lambda *a: None).determinism(probes)
         first[name] = explore(name, 1, None)
         completed[name] = first[name].completed_bound
     # pass 2: deeper bounds, in priority order, within the time budget
